@@ -293,6 +293,9 @@ func (in *Interp) valueEq(a, b Value) *sym.Term {
 		if sp, ok := b.(*SymPtr); ok {
 			return sym.Bool(a == in.ptr(sp))
 		}
+		if _, ok := b.(Opaque); ok {
+			return sym.False
+		}
 		return sym.Bool(a == b.(*Value))
 	case *SymPtr:
 		return in.valueEq(in.ptr(a), b)
@@ -349,7 +352,15 @@ func (in *Interp) valueEq(a, b Value) *sym.Term {
 		}
 		return r
 	case Opaque:
-		return sym.Bool(a.X == b.(Opaque).X)
+		bo, ok := b.(Opaque)
+		if !ok {
+			return sym.False
+		}
+		if ta, ok := a.X.(typeKey); ok {
+			tb, ok := bo.X.(typeKey)
+			return sym.Bool(ok && types.Identical(ta.t, tb.t))
+		}
+		return sym.Bool(a.X == bo.X)
 	case nil:
 		return sym.Bool(b == nil)
 	}
